@@ -212,11 +212,16 @@ fn strip_allow(n: &mut Node) {
 
 fn strip_spans_nothing(_: &mut Node) {}
 
-fn run_config(t: &Template, places: &[(Place, Arg)], with_error: bool, fam: &str, out: &mut CaseOut) -> String {
+fn run_config(t: &Template, places: &[(Place, Arg)], with_error: bool, swap: bool, fam: &str, out: &mut CaseOut) -> String {
     let _ = strip_spans_nothing;
-    let base = render(t, &[], with_error);
-    let with = render(t, places, with_error);
-    let desc = || format!("template {}/{} places {:?} error={}\n--- file 0 ---\n{}--- file 1 ---\n{}--- argv: {:?}", t.lint, t.name, places, with_error, with.files[0], with.files[1], with.cli);
+    let mut base = render(t, &[], with_error);
+    let mut with = render(t, places, with_error);
+    if swap {
+        // the file with the lint is the SECOND file of the compilation, the unrelated one the first
+        base.files.reverse();
+        with.files.reverse();
+    }
+    let desc = || format!("template {}/{} places {:?} error={} files-swapped={}\n--- file 0 ---\n{}--- file 1 ---\n{}--- argv: {:?}", t.lint, t.name, places, with_error, swap, with.files[0], with.files[1], with.cli);
     // options through the real command-line definition
     let mut argv = vec!["slicec".to_string()];
     argv.extend(with.cli.iter().cloned());
@@ -337,18 +342,19 @@ impl Product {
 }
 impl Family for Product {
     fn name(&self) -> String {
-        format!("single-placement/{} templates x 8 placements x 5 arguments x {{alone, next to an error}}", self.ts.len())
+        format!("single-placement/{} templates x 8 placements x 5 arguments x {{alone, next to an error}} x {{lint in the first file, in the second file}}", self.ts.len())
     }
     fn len(&self) -> u64 {
-        self.ts.len() as u64 * 8 * 5 * 2
+        self.ts.len() as u64 * 8 * 5 * 2 * 2
     }
     fn describe(&self, idx: u64) -> Value {
-        let (t, p, a, e) = self.decode(idx);
+        let (t, p, a, e) = self.decode(idx % (self.len() / 2));
         let r = render(t, &[(p, a.clone())], e);
-        json!({"lint": t.lint, "element": t.name, "placement": format!("{p:?}"), "argument": format!("{a:?}"), "files": r.files, "argv": r.cli})
+        json!({"lint": t.lint, "element": t.name, "placement": format!("{p:?}"), "argument": format!("{a:?}"), "files": r.files, "argv": r.cli, "files_given_in_reverse_order": idx >= self.len() / 2})
     }
     fn run(&self, idx: u64) -> CaseOut {
-        let (t, p, a, e) = self.decode(idx);
+        let swap = idx >= self.len() / 2;
+        let (t, p, a, e) = self.decode(idx % (self.len() / 2));
         let mut out = CaseOut::new(hash_str(&format!("c13p{idx}")));
         out.steps = 0;
         out.validated = 1;
@@ -357,7 +363,7 @@ impl Family for Product {
             return out;
         }
         out.nontrivial = in_scope_target(p) == Some(true);
-        out.class = format!("{:?}:{}", p, run_config(t, &[(p, a)], e, "single", &mut out));
+        out.class = format!("{:?}:{}", p, run_config(t, &[(p, a)], e, swap, "single", &mut out));
         out
     }
 }
@@ -410,7 +416,7 @@ impl Family for PlacementPairs {
             return out;
         }
         out.nontrivial = in_scope_target(a.0) == Some(true) || in_scope_target(b.0) == Some(true);
-        out.class = run_config(t, &[a, b], false, "pairs", &mut out);
+        out.class = run_config(t, &[a, b], false, idx % 2 == 1, "pairs", &mut out);
         out
     }
 }
